@@ -206,8 +206,14 @@ def _names(lst, prog=None):
 def render_transition(prog, t, assign=None):
     src, dst = t["src"], t["dst"]
     kw = []
+    names = prog.get("event_names") or {}
     if not assign:
-        kw.append(f"event={' '.join(t['events'])!r}")
+        if any(e in names for e in t["events"]):
+            # explicit Event objects: the display name is independent of the identifier
+            parts = [f"Event({e!r}, name={names[e]!r})" if e in names else repr(e) for e in t["events"]]
+            kw.append("event=[" + ", ".join(parts) + "]")
+        else:
+            kw.append(f"event={' '.join(t['events'])!r}")
     if t.get("internal"):
         kw.append("internal=True")
     for g in GROUPS:
@@ -303,7 +309,7 @@ def render_machine(prog, base_name=None):
 def render_program(prog, base_name=None):
     src = [
         "import enum",
-        "from statemachine import StateMachine, State",
+        "from statemachine import StateMachine, State, Event",
         "from statemachine.mixins import MachineMixin",
         "from sim.simrt import SIM",
         "import asyncio",
